@@ -103,6 +103,21 @@ def cases(tier, rng, schema, feats):
                         add("unit", "decty", R, cbor.enc(rp(name=t)).hex())
                     else:
                         add("unit", "dec2", mc(user(name=t, display=t)).hex())
+    # a multi-byte character followed by each representative, the second one starting at 61..64: then no ASCII byte hides a
+    # lead byte the boundary test misjudges (the scan window of floor_char_boundary holds lead bytes and continuation bytes only)
+    kk2 = 0
+    for c1 in ("\u00e9", "\u20ac", "\U0001f600"):
+        for c2 in reps:
+            for start in (61, 62, 63, 64):
+                pre = start - len(c1.encode())
+                t = cbor.T(("x" * pre + c1 + c2 + "tail").encode())
+                kk2 += 1
+                if kk2 % 3 == 0:
+                    add("pair", "decty", U, cbor.enc(user(name=t)).hex())
+                elif kk2 % 3 == 1:
+                    add("pair", "decty", R, cbor.enc(rp(name=t)).hex())
+                else:
+                    add("pair", "dec2", mc(user(name=t, display=t)).hex())
     for k, c in enumerate(reps):
         w = len(c.encode())
         for end in range(62, 69):            # byte offset at which the character ends
